@@ -356,7 +356,7 @@ class Exec:
         for c in pc[k:]:
             s.solver.push(); s.solver.add(c); cur.append(c)
 
-    def sat(s, st, extra=None):
+    def sat(s, st, extra=None, soft=False):
         # model cache: the state's last model may already satisfy the extra condition
         if extra is not None and st.model is not None:
             try:
@@ -375,7 +375,12 @@ class Exec:
         dt = time.time() - t0
         s.stats['solver_s'] += dt
         if dt > s.stats['max_query_s']: s.stats['max_query_s'] = dt
-        if r == z3.unknown: raise Violation('inconclusive', 'solver returned unknown (%s)' % s.solver.reason_unknown(), st)
+        if r == z3.unknown:
+            if soft:
+                # feasibility of a branch could not be decided: explore it anyway (sound for assertion checking: a violation still needs a model)
+                s.stats['undecided_feasibility'] = s.stats.get('undecided_feasibility', 0) + 1
+                return UNDECIDED
+            raise Violation('inconclusive', 'solver returned unknown (%s)' % s.solver.reason_unknown(), st)
         return mdl
     def fallback_cvc5(s, st):
         """z3 gave up (bit-vector division / multiplication by constants): re-decide the same query with cvc5's integer encoding of
@@ -384,7 +389,7 @@ class Exec:
         import subprocess, tempfile, os, re as _re
         s.stats['cvc5_queries'] = s.stats.get('cvc5_queries', 0) + 1
         smt = _re.sub(r'(bv[su](?:div|rem|mod))_i', r'\1', s.solver.to_smt2())   # z3-internal names for division by a non-zero divisor
-        ins = [i for i in st.inputs if z3.is_bv(i) or z3.is_bool(i)]
+        ins = [i for i in st.inputs if (z3.is_bv(i) or z3.is_bool(i)) and ('(declare-fun %s ' % i.sexpr()) in smt]
         smt = smt.replace('(check-sat)', '(check-sat)\n' + ''.join('(get-value (%s))\n' % i.sexpr() for i in ins))
         fd, path = tempfile.mkstemp(suffix='.smt2'); os.write(fd, ('(set-option :produce-models true)\n(set-logic ALL)\n' + smt).encode()); os.close(fd)
         # portfolio: cvc5 with the integer encoding of bit-vectors, and the stand-alone z3 5.1 with a long budget; first definitive answer wins
@@ -540,8 +545,14 @@ class Exec:
         cond = z3.simplify(cond)
         if z3.is_true(cond): s.jump(st, fr, a); return
         if z3.is_false(cond): s.jump(st, fr, b); return
+        if s.fpmode == 'real':
+            try:
+                c2 = z3.simplify(cond, som=True, som_blowup=100000000, arith_lhs=True)
+                if z3.is_true(c2): s.jump(st, fr, a); return
+                if z3.is_false(c2): s.jump(st, fr, b); return
+            except z3.Z3Exception: pass
         ncond = z3.Not(cond)
-        ma = s.sat(st, cond); mb = s.sat(st, ncond)
+        ma = s.sat(st, cond, soft=True); mb = s.sat(st, ncond, soft=True)
         if ma is not None and mb is not None:
             s.stats['forks'] += 1
             o = st.fork(); o.pc.append(ncond); o.model = mb; s.jump(o, o.frames[-1], b); work.append(o)
@@ -871,6 +882,12 @@ class Exec:
             if isinstance(c, bool):
                 if not c: raise Violation('assert', 'harness assertion violated at ' + site, st)
                 return 0
+            if s.fpmode == 'real':
+                # polynomial identities: expanding both sides into sums of monomials often closes the obligation without search
+                try:
+                    c2 = z3.simplify(c, som=True, som_blowup=100000000, arith_lhs=True)
+                    if z3.is_true(c2): s.stats['closed_by_normalisation'] = s.stats.get('closed_by_normalisation', 0) + 1; return 0
+                except z3.Z3Exception: pass
             m = s.sat(st, z3.Not(c))
             if m is not None: raise Violation('assert', 'harness assertion violated at ' + site, st, m)
             return 0
@@ -923,8 +940,18 @@ class Exec:
             a = [s.fpv(v) for v in a]
         if name.startswith('llvm.fmuladd'):
             return a[0] * a[1] + a[2] if s.fpmode == 'real' else z3.fpAdd(z3.RNE(), z3.fpMul(z3.RNE(), a[0], a[1]), a[2])
-        if name.startswith('llvm.fabs'):
-            return z3.If(a[0] >= 0, a[0], -a[0]) if s.fpmode == 'real' else z3.fpAbs(a[0])
+        if name.startswith('llvm.fabs') or name in ('fabs', 'fabsf'):
+            if s.fpmode != 'real': return z3.fpAbs(a[0])
+            v = z3.simplify(a[0])
+            if z3.is_rational_value(v): return v if v.numerator_as_long() >= 0 else -v
+            # fork on the sign (keeps each path's value a polynomial, which the normalisation pre-pass can close)
+            c = v >= 0; nc = z3.Not(c)
+            ma = s.sat(st, c, soft=True); mb = s.sat(st, nc, soft=True)
+            if ma is not None and mb is not None:
+                s.fork_ret(st, x, nc, -v, work); s.assume(st, c); st.model = ma; return v
+            if ma is not None: s.assume(st, c); return v
+            if mb is not None: s.assume(st, nc); return -v
+            return 'infeasible'
         if name.startswith('llvm.abs.i'):
             c = s.icmp(st, 'slt', x['ty'], a[0], 0)
             neg = s.binop(st, 'sub', x['ty'], 0, a[0])
@@ -939,7 +966,14 @@ class Exec:
             srt = z3.RealSort() if s.fpmode == 'real' else z3.Float64()
             key = (base, len(a))
             if key not in s.uf: s.uf[key] = z3.Function('uf_' + base, *([srt] * len(a) + [srt]))
-            return s.uf[key](*a)
+            r = s.uf[key](*a)
+            if s.fpmode == 'real':
+                # the few libm facts every harness may rely on (stated in the evidence): positivity / defining identity
+                if base == 'sqrt': s.assume(st, z3.And(r >= 0, z3.Implies(a[0] >= 0, r * r == a[0])))
+                elif base == 'exp': s.assume(st, r > 0)
+                elif base == 'cosh': s.assume(st, r >= 1)
+                elif base == 'pow': s.assume(st, z3.Implies(a[0] > 0, r > 0))
+            return r
         if name in ('memcmp', 'bcmp'):
             n = a[2]
             if not isc(n): raise Violation('unsupported', 'symbolic memcmp length', st)
@@ -1008,6 +1042,9 @@ class Exec:
         if r is not cxxrt.NOT: return r
         raise Violation('unsupported', 'external function ' + name, st)
 
+class _Undecided:
+    def eval(s, *a, **k): raise z3.Z3Exception('no model')
+UNDECIDED = _Undecided()
 class PathEnd(Exception): pass
 class Throw(Exception): pass
 
@@ -1067,7 +1104,7 @@ def main():
     st = ex.stats
     out = dict(status=status, entry=a.entry, fp=a.fp, paths=st['paths'], outcomes=dict(Counter(results)), forks=st['forks'], queries=st['queries'],
                cache_hits=st['cache_hits'], solver_s=round(st['solver_s'], 3), max_query_s=round(st['max_query_s'], 3), steps=st['steps'], wall_s=round(dt, 3),
-               cvc5_queries=st.get('cvc5_queries', 0), cvc5_unsat=st.get('cvc5_unsat', 0), bound_hits=st['bound_hits'], loopmax=a.loopmax, maxsteps=a.maxsteps,
+               undecided_feasibility=st.get('undecided_feasibility', 0), closed_by_normalisation=st.get('closed_by_normalisation', 0), cvc5_queries=st.get('cvc5_queries', 0), cvc5_unsat=st.get('cvc5_unsat', 0), bound_hits=st['bound_hits'], loopmax=a.loopmax, maxsteps=a.maxsteps,
                functions=sorted(st['funcs']), stubs=sorted(st['stubs']), assert_sites_total=nsites, assert_sites_reached=len(st['assert_sites']),
                assert_checks=st['assert_checks'], samples=ex.samples[:8], per_entry=per_entry)
     if v is not None:
